@@ -5,12 +5,16 @@ The functional encoder (`Model/Encode.lean`, `Model/EncodeStream.lean`) returns 
 the Rust code (overflow-checked arithmetic, `assert!`, `expect`) or when the oracle log is exhausted or
 ill-shaped.  `Total.FramesLogOk` says the log has the SHAPE the encoder consumes for this input (the `est`
 events of the `ApproxEnt` fixed stage, then the `qlpc` event of the LPC stage, sub-frame after sub-frame,
-the two extra sub-frames of the stereo trial included), so that `none` can only mean a panic site, and
-that every quantised LPC parameter set is `Total.LpcSafe` for the block it is used on.
+the two extra sub-frames of the stereo trial included), so that `none` can only mean a panic site.  The
+theorems below say: with a log of the right shape whose parameter sets satisfy `OEvent.Ok`, there is none.
 
-`LpcSafe` is NOT implied by `OEvent.Ok` and in-range samples: the two panic sites it excludes are
-reachable (`C07_reach_i32min`, `C07_reach_i32min_16bit`, `C07_reach_sub_overflow`; confirmed on the Rust
-code, see the comments there), and `LpcSafe` excludes exactly them (`C07_LpcSafe_exact`).
+Nothing else is asked of the quantised LPC parameter sets (the former hypothesis `LpcSafe` is gone): under
+its new guard `maxabs·(Σ|coef| + 1) < i32::MAX` the checked `i32` path of `compute_error` never overflows
+(`C07_computeError32_total`), the `i64` path reports values that are not FLAC residuals through its flag
+(`C07_computeError_flag`), and `estimated_qlpc` drops the candidate in that case (`C07_lpcCandidate_total`).
+`C07_i32min_dropped`, `C07_i32min_16bit_dropped` and `C07_sub_overflow_dropped` revisit the witnesses on
+which the code before the fix reached a panic site (`Total.computeErrorOld` is that old dispatch): the
+fixed `compute_error` returns with flag `false` on each of them and `encode_subframe` returns a sub-frame.
 
 Property theorems and non-vacuity examples only; the proofs live in `FlacVerif/Lemmas/Total*.lean`.
 -/
@@ -22,34 +26,46 @@ open Total
 
 /-! ### `compute_error` -/
 
-/-- Under its guard `maxabs(signal)·Σ|coef| < i32::MAX` the checked `i32` path of `compute_error` never
-overflows in a product or in the accumulator (for ANY coefficients, shift and signal); it returns iff the
-final subtraction `x[t] - (acc >> shift)` fits an `i32` at every position `t` (warm-up positions
-included). -/
-theorem C07_computeError32_guarded (coefs : List Int) (shift : Nat) (xs : List Int)
-    (hg : (xs.foldl (fun m x => max m x.natAbs) 0) * (coefs.foldl (fun s c => s + c.natAbs) 0) < 2 ^ 31 - 1) :
+/-- **The checked `i32` path never overflows.** Under the guard `maxabs(signal)·(Σ|coef| + 1) < i32::MAX`
+of `compute_error` — for ANY coefficients, shift and signal; no hypothesis on the samples is needed, the
+guard bounds them — no product, no partial sum of the accumulator and no final subtraction
+`x[t] - (acc >> shift)` leaves the `i32` range, at any position `t` (warm-up positions included):
+`compute_error_impl::<i32>` returns the exact values, and every exact error is smaller in absolute value
+than `2^31 - 1` (so none is `i32::MIN`). -/
+theorem C07_computeError32_total (coefs : List Int) (shift : Nat) (xs : List Int)
+    (hg : (xs.foldl (fun m x => max m x.natAbs) 0) * ((coefs.foldl (fun s c => s + c.natAbs) 0) + 1) < 2 ^ 31 - 1) :
     computeError32 coefs shift xs =
-      (List.range xs.length).mapM fun t =>
-        if fitsI32 (Strict.errE coefs shift xs t)
-        then some (if t < coefs.length then 0 else Strict.errE coefs shift xs t) else none :=
-  computeError32_guarded coefs shift xs hg
+      some ((List.range xs.length).map fun t => if t < coefs.length then 0 else Strict.errE coefs shift xs t) ∧
+    ∀ t, (Strict.errE coefs shift xs t).natAbs < 2 ^ 31 - 1 :=
+  computeError32_total coefs shift xs hg
 
-/-- Under `LpcSafe`, `compute_error` returns, and every error lies strictly inside `(-2^31, 2^31)`. -/
-theorem C07_computeError_safe (coefs : List Int) (shift : Nat) (xs : List Int) (h : LpcSafe coefs shift xs) :
-    ∃ errors, computeError coefs shift xs = some errors ∧ errors.length = xs.length ∧
-      ∀ e ∈ errors, -(2 ^ 31 : Int) < e ∧ e < (2 ^ 31 : Int) :=
-  computeError_safe coefs shift xs h
+/-- **`compute_error` never panics**, for ANY coefficients, shift and signal; its buffer has one entry per
+sample; and when its flag is `true` every entry lies strictly inside `(-2^31, 2^31)` — `encode_signbit`
+never meets `i32::MIN` — and the entries after the warm-up are the exact LPC residual. -/
+theorem C07_computeError_total (coefs : List Int) (shift : Nat) (xs : List Int) :
+    ∃ errors fits, computeError coefs shift xs = some (errors, fits) ∧ errors.length = xs.length ∧
+      (fits = true → (∀ e ∈ errors, -(2 ^ 31 : Int) < e ∧ e < (2 ^ 31 : Int)) ∧
+        errors.drop coefs.length = lpcResidual coefs shift xs) :=
+  computeError_total coefs shift xs
 
-/-- **`LpcSafe` is exact.** For a block of `64 ≤ n < 2^16` samples and a parameter set of at most 64
-coefficients, the LPC stage (`compute_error`, Rice parameter search with `encode_signbit`, residual
-construction) returns iff the parameter set is `LpcSafe` for the block: (1) on the checked `i32` path
-`x[t] - (acc >> shift)` fits an `i32` for every `t`; (2) no emitted error is `i32::MIN`. -/
-theorem C07_LpcSafe_exact (cfg : SubCfg) (xs : List Int) (bps : Nat) (c : List Int) (s : Int) (p : Nat)
+/-- **The flag is exact**: it is `true` iff every value of the exact LPC residual lies in
+`-(2^31-1) ..= 2^31-1`, the range of FLAC residuals (always, on the checked `i32` path). -/
+theorem C07_computeError_flag (coefs : List Int) (shift : Nat) (xs errors : List Int) (fits : Bool)
+    (h : computeError coefs shift xs = some (errors, fits)) :
+    fits = true ↔ ∀ e ∈ lpcResidual coefs shift xs, e.natAbs ≤ 2 ^ 31 - 1 :=
+  computeError_flag_iff coefs shift xs errors fits h
+
+/-- **The LPC stage never panics.** For a block of `64 ≤ n < 2^16` samples and ANY parameter set of at most
+64 coefficients, `estimated_qlpc` (`compute_error`, Rice parameter search with `encode_signbit`, residual
+construction) consumes its `qlpc` event and returns; it returns a candidate iff every value of the exact
+LPC residual is a FLAC residual, and drops the candidate otherwise. (Replaces `C07_LpcSafe_exact`.) -/
+theorem C07_lpcCandidate_total (cfg : SubCfg) (xs : List Int) (bps : Nat) (c : List Int) (s : Int) (p : Nat)
     (rest : List OEvent) (hn : 64 ≤ xs.length) (hlen : xs.length < 2 ^ 16) (hc : c.length ≤ 64) :
-    (lpcCandidate cfg xs bps (.qlpc c s p :: rest)).isSome = true ↔ LpcSafe c s.toNat xs :=
-  lpcCandidate_isSome_iff cfg xs bps c s p rest hn hlen hc
+    ∃ f, lpcCandidate cfg xs bps (.qlpc c s p :: rest) = some (f, rest) ∧
+      (f.isSome = true ↔ ∀ e ∈ lpcResidual c s.toNat xs, e.natAbs ≤ 2 ^ 31 - 1) :=
+  lpcCandidate_total cfg xs bps c s p rest hn hlen hc
 
-/-! ### the two panic sites are reachable for admissible (`OEvent.Ok`) parameter sets -/
+/-! ### the witnesses on which the code before the fix reached a panic site -/
 
 namespace C07TotalEx
 
@@ -60,58 +76,72 @@ def minBlock16 : List Int := [-(2 ^ 15 : Int), -(2 ^ 15 : Int), -(2 ^ 15 : Int),
 /-- 64 samples of 24-bit audio: `2^17` twice, then silence. -/
 def subBlock : List Int := (2 ^ 17 : Int) :: (2 ^ 17 : Int) :: List.replicate 62 0
 
+/-- What `encode_subframe` returned: `0` constant, `1` verbatim, `2` fixed, `3` LPC. -/
+def kindOf : SubFrame → Nat
+  | .constant _ _ _ => 0 | .verbatim _ _ => 1 | .fixed _ _ _ => 2 | .lpc _ _ _ _ _ _ => 3
+
 end C07TotalEx
 open C07TotalEx
 
 set_option maxRecDepth 100000 in
-/-- **Finding (i64 path → `i32::MIN`).** `coefs = [-16384]`, `shift = 0`, `precision = 15` satisfies
-`OEvent.Ok`; on `minBlock` (24 bit) `compute_error` takes the `i64` path (`2^17·2^14 = 2^31 ≥ i32::MAX`),
-the exact error at `t = 1` is `0 - (-2^31) = 2^31`, its cast to `i32` is `i32::MIN`, and
-`encode_signbit(i32::MIN)` overflows (`rice.rs:145`): `encode_subframe` hits a panic site.
-Rust, dev profile (overflow checks): `verif_hooks::compute_error(&[-16384], 0, 15, ..)` returns
-`[0, -2147483648, 0, …]` and `find_partitioned_rice_parameter` panics at `src/rice.rs:145:5: attempt to
-subtract with overflow`. Release profile: wraps to `u32::MAX`, no panic. -/
-theorem C07_reach_i32min :
+/-- **Former finding `C07_reach_i32min` (i64 path → `i32::MIN`), after the fix.** `coefs = [-16384]`,
+`shift = 0`, `precision = 15` satisfies `OEvent.Ok`; on `minBlock` (24 bit) `compute_error` takes the `i64`
+path, the exact error at `t = 1` is `0 - (-2^31) = 2^31`, its cast to `i32` is `i32::MIN`.
+Before the fix that value went to `encode_signbit`, which overflows (`rice.rs:145`, a panic in the dev
+profile). Now `compute_error` does not panic and returns the flag `false` (the wrapped value is still
+stored), the LPC candidate is dropped, and `encode_subframe` returns a fixed-predictor sub-frame, consuming
+the `qlpc` event. -/
+theorem C07_i32min_dropped :
     OEvent.Ok (.qlpc [-16384] 0 15) ∧ (∀ x ∈ minBlock, SubFrame.inRange 24 x = true) ∧
     Strict.lpcWide [-16384] minBlock ∧
-    (computeError [-16384] 0 minBlock).map (·.take 3) = some [0, -(2 ^ 31 : Int), 0] ∧
-    encodeSubframe ⟨true, true, true, 4, true, 14⟩ minBlock 24 [.qlpc [-16384] 0 15] = none ∧
-    ¬ LpcSafe [-16384] 0 minBlock := by
+    (computeError [-16384] 0 minBlock).map (fun r => (r.1.take 3, r.2)) = some ([0, -(2 ^ 31 : Int), 0], false) ∧
+    (computeErrorOld [-16384] 0 minBlock).map (·.take 3) = some [0, -(2 ^ 31 : Int), 0] ∧
+    (lpcCandidate ⟨true, true, true, 4, true, 14⟩ minBlock 24 [.qlpc [-16384] 0 15]) = some (none, []) ∧
+    (encodeSubframe ⟨true, true, true, 4, true, 14⟩ minBlock 24 [.qlpc [-16384] 0 15]).map
+      (fun r => (kindOf r.1, r.2)) = some (2, []) := by
   decide +kernel
 
 set_option maxRecDepth 100000 in
-/-- The same panic site with 16-bit audio (four coefficients `-16384`, `shift = 0`: the prediction at
-`t = 4` is `4·(-16384)·(-32768) = 2^31`). -/
-theorem C07_reach_i32min_16bit :
+/-- **Former finding `C07_reach_i32min_16bit`, after the fix**: the same with 16-bit audio (four coefficients
+`-16384`, `shift = 0`: the prediction at `t = 4` is `4·(-16384)·(-32768) = 2^31`): flag `false`, candidate
+dropped, no panic. -/
+theorem C07_i32min_16bit_dropped :
     OEvent.Ok (.qlpc [-16384, -16384, -16384, -16384] 0 15) ∧ (∀ x ∈ minBlock16, SubFrame.inRange 16 x = true) ∧
     Strict.lpcWide [-16384, -16384, -16384, -16384] minBlock16 ∧
-    (computeError [-16384, -16384, -16384, -16384] 0 minBlock16).map (·.take 5) = some [0, 0, 0, 0, -(2 ^ 31 : Int)] ∧
-    encodeSubframe ⟨true, true, true, 4, true, 14⟩ minBlock16 16 [.qlpc [-16384, -16384, -16384, -16384] 0 15] = none ∧
-    ¬ LpcSafe [-16384, -16384, -16384, -16384] 0 minBlock16 := by
+    (computeError [-16384, -16384, -16384, -16384] 0 minBlock16).map (fun r => (r.1.take 5, r.2))
+      = some ([0, 0, 0, 0, -(2 ^ 31 : Int)], false) ∧
+    (lpcCandidate ⟨true, true, true, 4, true, 14⟩ minBlock16 16 [.qlpc [-16384, -16384, -16384, -16384] 0 15])
+      = some (none, []) ∧
+    (encodeSubframe ⟨true, true, true, 4, true, 14⟩ minBlock16 16 [.qlpc [-16384, -16384, -16384, -16384] 0 15]).map
+      (fun r => (kindOf r.1, r.2)) = some (2, []) := by
   decide +kernel
 
 set_option maxRecDepth 100000 in
-/-- **Finding (checked `i32` path: the guard does not cover the final subtraction).** `coefs = [-16383]`,
-`shift = 0`, `precision = 15` satisfies `OEvent.Ok`; on `subBlock` the guard holds
-(`2^17·16383 = 2^31 - 2^17 < i32::MAX`), so the `i32` path is taken; at `t = 1` the accumulator is
-`-(2^31 - 2^17)` and `x[1] - acc = 2^17 + 2^31 - 2^17 = 2^31` overflows `i32` (`lpc.rs:361`).
-Rust, dev profile: `verif_hooks::compute_error(&[-16383], 0, 15, ..)` panics at `src/lpc.rs:361:19: attempt
-to subtract with overflow`. Release profile: wraps (`[0, -2147483648, 2147352576, 0, …]`), no panic. -/
-theorem C07_reach_sub_overflow :
+/-- **Former finding `C07_reach_sub_overflow` (the old guard did not cover the final subtraction), after the
+fix.** `coefs = [-16383]`, `shift = 0`, `precision = 15` satisfies `OEvent.Ok`; on `subBlock` the OLD guard
+held (`2^17·16383 = 2^31 - 2^17 < i32::MAX`), the `i32` path was taken, and at `t = 1`
+`x[1] - acc = 2^17 + 2^31 - 2^17 = 2^31` overflowed `i32` (`lpc.rs:361`, a panic in the dev profile:
+`computeErrorOld … = none`). The NEW guard fails (`2^17·(16383 + 1) = 2^31 ≥ i32::MAX`), the `i64` path is
+taken, the flag is `false` (the exact error `2^31` at `t = 1` is not a FLAC residual), the candidate is
+dropped, and `encode_subframe` returns a fixed-predictor sub-frame. -/
+theorem C07_sub_overflow_dropped :
     OEvent.Ok (.qlpc [-16383] 0 15) ∧ (∀ x ∈ subBlock, SubFrame.inRange 24 x = true) ∧
-    ¬ Strict.lpcWide [-16383] subBlock ∧ Strict.errE [-16383] 0 subBlock 1 = 2 ^ 31 ∧
-    computeError [-16383] 0 subBlock = none ∧
-    encodeSubframe ⟨true, true, true, 4, true, 14⟩ subBlock 24 [.qlpc [-16383] 0 15] = none ∧
-    ¬ LpcSafe [-16383] 0 subBlock := by
+    Strict.lpcWide [-16383] subBlock ∧ Strict.errE [-16383] 0 subBlock 1 = 2 ^ 31 ∧
+    computeErrorOld [-16383] 0 subBlock = none ∧
+    (computeError [-16383] 0 subBlock).map (fun r => (r.1.take 4, r.2))
+      = some ([0, -(2 ^ 31 : Int), 2 ^ 31 - 2 ^ 17, 0], false) ∧
+    (lpcCandidate ⟨true, true, true, 4, true, 14⟩ subBlock 24 [.qlpc [-16383] 0 15]) = some (none, []) ∧
+    (encodeSubframe ⟨true, true, true, 4, true, 14⟩ subBlock 24 [.qlpc [-16383] 0 15]).map
+      (fun r => (kindOf r.1, r.2)) = some (2, []) := by
   decide +kernel
 
 /-! ### sub-frame, frame, stream -/
 
 /-- **C07 (totality), sub-frame.** For every sub-frame configuration, every block of fewer than `2^16`
 samples of width `1 ≤ bps ≤ 25`, and every oracle log that satisfies `OEvent.Ok` and starts with the
-events this sub-frame asks for (`SubLogOk`, including `LpcSafe` for the parameter set): `encode_subframe`
-hits no panic site, and consumes exactly `subTake cfg xs` events. (`maxP` is arbitrary: the search is
-total for every `max_p`.) -/
+events this sub-frame asks for (`SubLogOk`: shape only, nothing is asked of the parameter set):
+`encode_subframe` hits no panic site, and consumes exactly `subTake cfg xs` events. (`maxP` is arbitrary:
+the search is total for every `max_p`.) -/
 theorem C07_subframe_total (cfg : SubCfg) (xs : List Int) (bps : Nat) (log : List OEvent)
     (hlen : xs.length < 2 ^ 16) (hb : 1 ≤ bps ∧ bps ≤ 25)
     (hx : ∀ x ∈ xs, SubFrame.inRange bps x = true) (hlog : ∀ e ∈ log, e.Ok)
@@ -119,9 +149,8 @@ theorem C07_subframe_total (cfg : SubCfg) (xs : List Int) (bps : Nat) (log : Lis
     ∃ s, encodeSubframe cfg xs bps log = some (s, log.drop (subTake cfg xs)) :=
   encodeSubframe_total cfg xs bps log hlen hb hx hlog hshape
 
-/-- **`SubLogOk` is exact**: under the same hypotheses, `encode_subframe` returns iff `SubLogOk` holds — so
-with a log of the right shape, `none` means exactly "a panic site was reached", and the only reachable
-panic sites are the two that `LpcSafe` excludes. -/
+/-- **`SubLogOk` is exact**: under the same hypotheses, `encode_subframe` returns iff `SubLogOk` holds — `none`
+never means "a panic site was reached", only "the log does not supply the events asked for". -/
 theorem C07_SubLogOk_exact (cfg : SubCfg) (xs : List Int) (bps : Nat) (log : List OEvent)
     (hlen : xs.length < 2 ^ 16) (hb : 1 ≤ bps ∧ bps ≤ 25)
     (hx : ∀ x ∈ xs, SubFrame.inRange bps x = true) (hlog : ∀ e ∈ log, e.Ok) :
@@ -164,8 +193,8 @@ theorem C07_verified_cfg (exp : Bool) (c : Gen.Encoder) (h : Gen.Encoder.verify 
 
 /-- **C07 (totality).** Every configuration accepted by `Encoder::verify` encodes every valid input — 1 to
 8 channels of equal length `total < 2^36`, `1 ≤ bps ≤ 24` bits, samples in range, any rate — without
-reaching a panic site of the integer pipeline, for EVERY admissible oracle: `OEvent.Ok`, shaped as the
-encoder consumes it, every quantised LPC parameter set `LpcSafe` for its block. -/
+reaching a panic site of the integer pipeline, for EVERY admissible oracle: `OEvent.Ok` and shaped as the
+encoder consumes it (`FramesLogOk`). No further hypothesis on the quantised LPC parameter sets. -/
 theorem C07_total (exp : Bool) (c : Gen.Encoder) (h : Gen.Encoder.verify exp c = true)
     (md5 : List Nat → List Nat) (chans : List (List Int)) (bps rate : Nat) (log : List OEvent) (total : Nat)
     (hch : 1 ≤ chans.length ∧ chans.length ≤ 8) (hlen : ∀ c ∈ chans, c.length = total) (htot : total < 2 ^ 36)
@@ -223,8 +252,8 @@ open C01StrictEx
 
 set_option maxRecDepth 100000 in
 /-- Fixed stage by entropy estimates and LPC stage: the log `5 × est, qlpc [2,-1] 0 3` has the shape
-`encode_subframe` consumes for `smooth64`, and the parameter set is `LpcSafe`; the theorem applies, and
-the kernel confirms the result and that all six events are consumed. -/
+`encode_subframe` consumes for `smooth64`; the theorem applies, and the kernel confirms the result and that
+all six events are consumed. -/
 example : SubLogOk ⟨true, true, true, 4, false, 14⟩ smooth64
     [.est 0 900, .est 1 700, .est 2 300, .est 3 400, .est 4 500, .qlpc [2, -1] 0 3] ∧
     subTake ⟨true, true, true, 4, false, 14⟩ smooth64 = 6 :=
@@ -234,12 +263,20 @@ example : SubLogOk ⟨true, true, true, 4, false, 14⟩ smooth64
       rw [h5] at he
       simp only [List.take, List.mem_cons, List.not_mem_nil, or_false] at he
       rcases he with rfl | rfl | rfl | rfl | rfl <;> exact ⟨_, _, rfl⟩),
-    fun _ => ⟨[2, -1], 0, 3, rfl, by decide +kernel⟩⟩), by decide⟩
+    fun _ => ⟨[2, -1], 0, 3, rfl⟩⟩), by decide⟩
 
 set_option maxRecDepth 100000 in
 example : ((encodeSubframe ⟨true, true, true, 4, false, 14⟩ smooth64 16
     [.est 0 900, .est 1 700, .est 2 300, .est 3 400, .est 4 500, .qlpc [2, -1] 0 3]).map (·.2)) = some [] := by
   decide +kernel
+
+set_option maxRecDepth 100000 in
+/-- `C07_subframe_total` applies to the witness on which the code before the fix reached a panic site
+(`C07_i32min_dropped`): the log `qlpc [-16384] 0 15` is `OEvent.Ok` and has the right shape for `minBlock`. -/
+example : ∃ s, encodeSubframe ⟨true, true, true, 4, true, 14⟩ minBlock 24 [.qlpc [-16384] 0 15] = some (s, []) :=
+  C07_subframe_total ⟨true, true, true, 4, true, 14⟩ minBlock 24 [.qlpc [-16384] 0 15] (by decide) (by decide)
+    (by decide) (by decide)
+    (Or.inr (Or.inr ⟨by decide, (by intro e he; cases he), fun _ => ⟨[-16384], 0, 15, rfl⟩⟩))
 
 /-- The default configuration (LPC order 10, `ApproxEnt`, block size 4096) is accepted, and its
 integer-relevant part is the `SubCfg` the model runs with. -/
